@@ -22,19 +22,24 @@ Starts == {i \in 1..N : Rec[i].e = "crun"}
 
 ASSUME TLCSet(1, {}) /\ TLCSet(2, {}) /\ TLCSet(3, {})
 
-VARIABLES l, h, cs, pend, lind
-vars == <<l, h, cs, pend, lind>>
+VARIABLES l, h, he, cs, pend, lind
+vars == <<l, h, he, cs, pend, lind>>
 
 Init == \E s \in Starts :
           /\ h = s /\ l = s + 1
+          \* one past the last line of this history
+          /\ he = CHOOSE i \in (s + 1)..(N + 1) : /\ (i = N + 1 \/ Rec[i].e \in {"crun", "cprog"})
+                                                 /\ \A j \in (s + 1)..(i - 1) : Rec[j].e \notin {"crun", "cprog"}
           /\ cs = {InitState(SeqRange(Rec[s].keys), Rec[s].policy, Rec[s].L, 1048576, FALSE)}
           /\ pend = <<>> /\ lind = {}
 
 InHist == l <= N /\ Rec[l].e \notin {"crun", "cprog"}
 E == Rec[l]
 
-(* the response of client c's pending command: its next `ret` line *)
-RetLine(c) == CHOOSE i \in l..N : Rec[i].e = "ret" /\ Rec[i].c = c /\ \A j \in l..(i - 1) : ~(Rec[j].e = "ret" /\ Rec[j].c = c)
+(* the response of client c's pending command: its next `ret` line in this history; 0 if the run was cut  *)
+(* short (hang, deadlock) before the command returned                                                    *)
+RetOf(c) == LET S == {i \in l..(he - 1) : Rec[i].e = "ret" /\ Rec[i].c = c} IN
+            IF S = {} THEN 0 ELSE CHOOSE i \in S : \A j \in S : i <= j
 Merged(inv, ret) == [inv EXCEPT !.e = "cmd"] @@ [r |-> ret.r, panic |-> ret.panic, dec |-> "frame",
                                                  present |-> <<>>, bytes |-> 0, usage |-> ""]
 
@@ -43,19 +48,19 @@ Merged(inv, ret) == [inv EXCEPT !.e = "cmd"] @@ [r |-> ret.r, panic |-> ret.pani
 Relaxed == Rec[h].policy = "random"
 Setup == /\ InHist /\ E.e = "cmd"
          /\ LET j == JudgeAll(cs, E) IN (j.tags = {} \/ Relaxed) /\ cs' = j.sts
-         /\ l' = l + 1 /\ UNCHANGED <<h, pend, lind>>
+         /\ l' = l + 1 /\ UNCHANGED <<h, he, pend, lind>>
 Tick1 == /\ InHist /\ E.e = "tick"
-         /\ cs' = TickAll(cs, E.to) /\ l' = l + 1 /\ UNCHANGED <<h, pend, lind>>
+         /\ cs' = TickAll(cs, E.to) /\ l' = l + 1 /\ UNCHANGED <<h, he, pend, lind>>
 Invoke == /\ InHist /\ E.e = "inv"
-          /\ pend' = (E.c :> E) @@ pend
-          /\ l' = l + 1 /\ UNCHANGED <<h, cs, lind>>
-Lin(c) == /\ InHist /\ c \in DOMAIN pend /\ c \notin lind
-          /\ LET j == JudgeAll(cs, Merged(pend[c], Rec[RetLine(c)])) IN j.tags = {} /\ cs' = j.sts
-          /\ lind' = lind \cup {c} /\ UNCHANGED <<l, h, pend>>
+          /\ pend' = (E.c :> [inv |-> E, ret |-> RetOf(E.c)]) @@ pend
+          /\ l' = l + 1 /\ UNCHANGED <<h, he, cs, lind>>
+Lin(c) == /\ InHist /\ c \in DOMAIN pend /\ c \notin lind /\ pend[c].ret > 0
+          /\ LET j == JudgeAll(cs, Merged(pend[c].inv, Rec[pend[c].ret])) IN j.tags = {} /\ cs' = j.sts
+          /\ lind' = lind \cup {c} /\ UNCHANGED <<l, h, he, pend>>
 Return == /\ InHist /\ E.e = "ret" /\ (E.c \in lind \/ Relaxed)
           /\ pend' = [d \in DOMAIN pend \ {E.c} |-> pend[d]]
           /\ lind' = lind \ {E.c}
-          /\ l' = l + 1 /\ UNCHANGED <<h, cs>>
+          /\ l' = l + 1 /\ UNCHANGED <<h, he, cs>>
 
 RetOfClient(c, hh) == LET i == CHOOSE i \in hh..N : Rec[i].e = "ret" /\ Rec[i].c = c IN Rec[i]
 Conforms(x, fin, hh) ==
@@ -108,7 +113,7 @@ Final == /\ InHist /\ E.e = "final" /\ DOMAIN pend = {} /\ lind = {}
          /\ IF Relaxed \/ SerialOK(E, h, l) THEN TLCSet(1, TLCGet(1) \cup {h}) ELSE TLCSet(3, TLCGet(3) \cup {h})
          \* conformance to the MemcConc model (replayed TLC schedules): same steps in the same order, same statuses
          /\ IF "expect" \in DOMAIN Rec[h] /\ ~Conforms(Rec[h].expect, E, h) THEN TLCSet(2, TLCGet(2) \cup {h}) ELSE TRUE
-         /\ l' = l + 1 /\ UNCHANGED <<h, cs, pend, lind>>
+         /\ l' = l + 1 /\ UNCHANGED <<h, he, cs, pend, lind>>
 
 Next == Setup \/ Tick1 \/ Invoke \/ Return \/ Final \/ \E c \in DOMAIN pend : Lin(c)
 Spec == Init /\ [][Next]_vars
